@@ -51,6 +51,8 @@ pub struct GateState {
     pub released: bool,
     /// free-running mode: every emit proceeds at once with this outcome
     pub open: Option<StepOut>,
+    /// outcome to use if the wrapped sink is (wrongly) run on a caller's thread
+    pub caller_outcome: Option<StepOut>,
 }
 
 #[derive(Default)]
@@ -143,9 +145,16 @@ impl MetricSink for GatedSink {
         if on_producer {
             // the wrapped sink is being run on a caller's thread: never block the
             // harness, the oracle reports it
+            let outcome = match g.caller_outcome {
+                Some(StepOut::Err(k)) => StepOut::Err(k),
+                _ => StepOut::Ok,
+            };
             g.exited += 1;
-            g.log.push(Ev::Exit { seq, outcome: StepOut::Ok });
-            return Ok(metric.len());
+            g.log.push(Ev::Exit { seq, outcome });
+            return match outcome {
+                StepOut::Err(k) => Err(util::token_error(k, seq as u64)),
+                _ => Ok(metric.len()),
+            };
         }
         let outcome = loop {
             if let Some(o) = g.permits.pop_front() {
